@@ -89,6 +89,7 @@ deriving Repr, DecidableEq
 
 def usizeMax : Nat := 2 ^ 64 - 1
 def i32Max : Nat := 2 ^ 31 - 1
+def isizeMax : Nat := 2 ^ 63 - 1
 
 /-- `n as i32` for a `usize` -/
 def wrapI32 (n : Nat) : Int :=
@@ -180,7 +181,8 @@ def parsePrecision : List Nat → Except Err (Option Nat × List Nat)
   | 46 :: r =>
     match parseNumber r with
     | .error e => .error e
-    | .ok (some size, rest) => if size > i32Max then .error .precisionTooBig else .ok (some size, rest)
+    -- 45bc6fb: the limit is `isize::MAX` (CPython's `Py_ssize_t`); floats check `i32::MAX` later
+    | .ok (some size, rest) => if size > isizeMax then .error .precisionTooBig else .ok (some size, rest)
     | .ok (none, _) => .ok (none, 46 :: r)
   | t => .ok (none, t)
 
@@ -235,8 +237,9 @@ def parseSpec (text : List Nat) : Except Err FormatSpec :=
       let (ftype, text) := parseType text
       if !text.isEmpty then .error .invalidFormatSpecifier
       else
-        let (fill, align) :=
-          if zero ∧ fill.isNone then (some 48, some (align.getD .afterSign)) else (fill, align)
+        -- 9bdbe36: the `0` flag only sets the fill; the alignment it implies depends on the value
+        -- (`=` for numbers, see `numberAlign`; the usual `<` for strings)
+        let fill := if zero ∧ fill.isNone then some 48 else fill
         .ok { conversion, fill, align, sign, alt, width, grouping, precision, ftype }
 
 /-! ## grouping -/
@@ -289,6 +292,11 @@ def addSepForChar (s : List Nat) (inter : Int) (sep : Nat) (dispDigitCnt : Int) 
   | none => none
   | some r => some (r ++ rest)
 
+/-- `number_align` (9bdbe36): the explicit alignment, else `=` under the `0` flag (a fill of `0` without
+    an alignment can only come from that flag), else right -/
+def numberAlign (spec : FormatSpec) : Align :=
+  spec.align.getD (if spec.fill = some 48 then .afterSign else .right)
+
 /-- `get_separator_interval` (fix a6de50b: no `panic!` arm any more) -/
 def getSeparatorInterval (spec : FormatSpec) : Nat :=
   match spec.ftype with
@@ -304,7 +312,7 @@ def addMagnitudeSeparators (spec : FormatSpec) (s : List Nat) (pfx : List Nat) :
     let inter := getSeparatorInterval spec
     let magnitudeLen := s.length
     -- the width drives zero padding only under sign-aware zero padding (`0` flag / `0=`)
-    let zeroPadded := spec.fill = some 48 ∧ spec.align = some .afterSign
+    let zeroPadded := spec.fill = some 48 ∧ numberAlign spec = .afterSign
     let width : Option Int :=
       if zeroPadded then chkI32 (wrapI32 (spec.width.getD magnitudeLen) - wrapI32 pfx.length) else some 0
     match width with
@@ -400,6 +408,12 @@ def sInfPct : List Nat := [105, 110, 102, 37]
 def sNan : List Nat := [110, 97, 110]
 def sInf : List Nat := [105, 110, 102]
 
+/-- `repr.replacen('e', ".e", 1)` -/
+def pointBeforeE : List Nat → List Nat
+  | [] => []
+  | 101 :: rest => 46 :: 101 :: rest
+  | c :: rest => c :: pointBeforeE rest
+
 /-- the `raw_magnitude_str` match of `format_float` -/
 def floatMagnitude (spec : FormatSpec) (mag : Nat) : Res (List Nat) :=
   let precision := spec.precision.getD 6
@@ -415,25 +429,30 @@ def floatMagnitude (spec : FormatSpec) (mag : Nat) : Res (List Nat) :=
     if PV.Dec.isNan mag then .ok sNanPct
     else if PV.Dec.isInf mag then .ok sInfPct
     else
-      -- `float::format_fixed(precision, magnitude * 100.0, Case::Lower, false)`, then `{result}{point}%`
-      .ok (PV.C17.formatFixed precision (mul100 mag) false false ++
-        PV.C17.decimalPointOrEmpty precision spec.alt ++ [37])
+      -- `float::format_fixed(precision, magnitude * 100.0, Case::Lower, alternate_form)`, then `{result}%`
+      -- (ca95121: an overflowing product prints `inf%`, no decimal point)
+      .ok (PV.C17.formatFixed precision (mul100 mag) false spec.alt ++ [37])
   | none =>
     if PV.Dec.isNan mag then .ok sNan
     else if PV.Dec.isInf mag then .ok sInf
     else match spec.precision with
       | some p => .ok (PV.C17.formatGeneral p mag false spec.alt true)
-      | none => .ok (PV.C17.toString mag)
+      | none =>
+        -- dabde2e: `#` asks for a decimal point; only exponent notation can lack one
+        let repr := PV.C17.toString mag
+        .ok (if spec.alt ∧ !repr.contains 46 then pointBeforeE repr else repr)
 
 /-- `format_float` -/
 def formatFloat (spec : FormatSpec) (bits : Nat) : Res (List Nat) :=
   match validateFormat spec (.fixed false) with
   | .error e => .err e
   | .ok () =>
+    -- 45bc6fb: `if precision > i32::MAX as usize { return Err(PrecisionTooBig) }`
+    if spec.precision.getD 6 > i32Max then .err .precisionTooBig else
     (floatMagnitude spec (absBits bits)).bind fun raw =>
     let signStr := sSign (PV.Dec.isNeg bits && !PV.Dec.isNan bits) spec.sign
     (Res.ofOption (addMagnitudeSeparators spec raw signStr)).bind fun mag =>
-    Res.ofOption (formatSignAndAlign spec mag mag.length signStr .right)
+    Res.ofOption (formatSignAndAlign spec mag mag.length signStr (numberAlign spec))
 
 /-! ## `format_int`, `format_string`, `format_bool` -/
 
@@ -492,7 +511,7 @@ def formatInt (spec : FormatSpec) (num : Int) : Res (List Nat) :=
       let signPrefix := sSign (num < 0) spec.sign ++ intPrefix spec
       (Res.ofOption (addMagnitudeSeparators spec raw signPrefix)).bind fun mag =>
       -- `AsciiStr::char_len` counts characters (fix b3fed62)
-      Res.ofOption (formatSignAndAlign spec mag mag.length signPrefix .right)
+      Res.ofOption (formatSignAndAlign spec mag mag.length signPrefix (numberAlign spec))
 
 /-- `s.chars().take(precision).collect()` -/
 def truncateChars : Option Nat → List Nat → List Nat
@@ -500,7 +519,8 @@ def truncateChars : Option Nat → List Nat → List Nat
   | none, s => s
 
 /-- `format_string` for a Python `str` (fix 19885fd: sign and `#` rejected, precision counts
-    characters and is applied before padding) -/
+    characters and is applied before padding; 9bdbe36: `=` alignment rejected, and the `0` flag no longer
+    implies it) -/
 def formatString (spec : FormatSpec) (s : List Nat) : Res (List Nat) :=
   match validateFormat spec .string with
   | .error e => .err e
@@ -509,6 +529,7 @@ def formatString (spec : FormatSpec) (s : List Nat) : Res (List Nat) :=
     | some .string | none =>
       if spec.sign.isSome then .err .notAllowed
       else if spec.alt then .err .notAllowed
+      else if spec.align = some .afterSign then .err .notAllowed      -- 9bdbe36
       else
         let truncated := truncateChars spec.precision s
         Res.ofOption (formatSignAndAlign spec truncated truncated.length [] .left)
